@@ -34,7 +34,7 @@ func init() {
 		MinEvents: map[string]int64{"fault_runs": 5000, "error_items": 5000, "records_before_fault": 1000, "write_fault_runs": 2000, "write_ok_runs": 100},
 		Units: []Unit{
 			{Name: "readfaults", QShards: 4, TShards: 12, Run: c07ReadFaults},
-			{Name: "readfaults-large", QShards: 6, TShards: 12, Run: c07ReadFaultsLarge},
+			{Name: "readfaults-large", QShards: 12, TShards: 16, Run: c07ReadFaultsLarge},
 			{Name: "readfaults-giant", QShards: 6, TShards: 12, Run: c07ReadFaultsGiant},
 			{Name: "writefaults", QShards: 2, TShards: 8, Run: c07WriteFaults},
 			{Name: "writefaults-large", QShards: 10, TShards: 16, Run: c07WriteFaultsLarge},
@@ -249,7 +249,7 @@ func c07ReadFaultsLarge(c *Ctx) {
 	idx := int64(0)
 	for _, f := range c06Formats {
 		cd := codecByName(f)
-		for i := 0; i < c.N(1, 6); i++ {
+		for i := 0; i < c.N(6, 12); i++ {
 			c.Case(idx, func(k *K) {
 				r := k.Rand()
 				ff := f
@@ -264,7 +264,7 @@ func c07ReadFaultsLarge(c *Ctx) {
 				for len(x) < target {
 					x = append(x, wellFormed(r, ff, 1+r.IntN(8))...)
 				}
-				if k.Idx%2 == 1 {
+				if i%2 == 1 {
 					x = wellFormedLong(r, ff)
 				} else if ff == "bed" { // one N per file
 					x = nil
@@ -309,6 +309,22 @@ func c07ReadFaultsLarge(c *Ctx) {
 					}
 				}
 				k.Count("line_end_fault_offsets_large", int64(len(nls)/step))
+				// inside long lines: at buffer multiples counted from the START OF THE LINE (a reader that collects a
+				// long line chunk by chunk meets its chunk ends there, wherever the line begins in the stream)
+				prev := 0
+				for _, nl := range append(nls, len(x)) {
+					if nl-prev > 4096 {
+						for _, bsz := range []int{4096, 8192, 65536} {
+							for m := 1; m <= 3 && prev+m*bsz <= nl+1; m++ {
+								for d := -1; d <= 1; d++ {
+									offs[prev+m*bsz+d] = true
+								}
+							}
+						}
+						k.Count("long_lines_with_chunk_end_faults", 1)
+					}
+					prev = nl + 1
+				}
 				for kk := range offs {
 					if kk < 0 || kk > len(x) {
 						continue
